@@ -517,7 +517,7 @@ M("c02-arrow-forgets-loop-stack", ["C02", "C05", "C07"], CO,
 # ------------------------------------------------------------------ seeded changes (independent authors)
 S("seed-C01-a", ["C01"], "seeded/C01-a/patch.diff", [("C01", "C01-R6", "_call_callback")])
 S("seed-C01-b", ["C01"], "seeded/C01-b/patch.diff", [("C01", "C01-R9", "start_time")], silent=["C15"], note="C15 must stay silent: the helper only compares the clock")
-S("seed-C02-a", ["C02"], "seeded/C02-a/patch.diff", [("C02", "C02-R1$", "MemoryLimitError")])
+S("seed-C02-a", ["C02"], "seeded/C02-a/patch.diff", [("C02", "C02-R13", "_throw")], note="the running frame-bytes total is now read as a companion counter of the call stack (C02-R1 accepts it); the unwinding pop that never gives bytes back is C02-R13")
 S("seed-C02-b", ["C02"], "seeded/C02-b/patch.diff", [("C02", "C02-R10", "_has_pending_state")])
 S("seed-C03-a", ["C03"], "seeded/C03-a/patch.diff", [("C03", "C03-R3b", "this_val")])
 S("seed-C04-a", ["C04", "C14"], "seeded/C04-a/patch.diff", [("C04", "C04-R3", "decoder"), ("C14", "C14-R3", "decoder")])
@@ -1194,3 +1194,8 @@ S("seed-C19-g", ["C19", "C11"], "seeded/C19-g/patch.diff", [("C19", "C19-R9", "_
 TP("t-literal-member-initialiser", ALL_PROPS, "selftest/patches/t-literal-member-initialiser.diff", note="the initialiser kept for literals, members of converted dicts stored with set (repaired C19-g)")
 S("seed-C20-g", ["C20"], "seeded/C20-g/patch.diff", [("C20", "C20-R12", "match_all")], note="match_all on one matcher; the step over an empty match is taken from the search start, not from the match")
 TP("t-match-all-one-vm", ALL_PROPS, "selftest/patches/t-match-all-one-vm.diff", note="the same single-matcher scan stepping from the match (repaired C20-g)")
+S("seed-C02-h", ["C02"], "seeded/C02-h/patch.diff", [("C02", "C02-R13", "_throw")], note="frames weighed in a running byte counter kept beside the call stack; the unwinding in _throw pops frames without giving their bytes back", silent=("C04", "C05", "C06", "C07", "C08"))
+TP("t-frame-cost-accounting", ALL_PROPS, "selftest/patches/t-frame-cost-accounting.diff", note="the same counter given back by every pop (repaired C02-h)")
+M("c02-native-callback-uncounted", ["C02"], VM,
+  "            self._enter_host_level()\n            try:\n                return self._call_host(callback, this_val, args)\n            finally:\n                self.host_depth[0] -= 1\n", "            return self._call_host(callback, this_val, args)\n",
+  [("C02", "C02-R14", "_call_callback")], note="fix bbcbe90 reverted: a native handed to a native as its callback runs uncharged")
